@@ -948,6 +948,7 @@ func (as *AbacoSource) StartRun() error {
 	}
 	as.buffersChan = make(chan AbacoBuffersType, 100)
 	as.readPeriod = 50 * time.Millisecond
+	as.readPeriod = verifDuration("abaco.readPeriod", as.readPeriod)
 	go as.readerMainLoop()
 	return nil
 }
@@ -998,6 +999,7 @@ awaitmoredata:
 				}
 				as.distributePackets(allPackets, lastSampleTime)
 			}
+			verifPoint("abaco.tick.distributed")
 
 			// var t1, t2 time.Time
 			// t1, t2 = t2, time.Now()
@@ -1095,6 +1097,7 @@ awaitmoredata:
 // for Lancero), we'll also want to handle those changes in this loop.
 func (as *AbacoSource) getNextBlock() chan *dataBlock {
 	panicTime := time.Duration(cap(as.buffersChan)) * as.readPeriod
+	panicTime = verifDuration("abaco.panicTime", panicTime)
 	go func() {
 		for {
 			select {
@@ -1114,6 +1117,7 @@ func (as *AbacoSource) getNextBlock() chan *dataBlock {
 				}
 
 				// as.buffersChan contained valid data, so act on it.
+				verifPoint("abaco.block.assemble")
 				block := as.distributeData(buffersMsg)
 				as.nextBlock <- block
 				if block.err != nil {
